@@ -131,7 +131,7 @@ def plan(ctx):
         exh = [(0, 4, [0, 7], [0]), (0, 3, list(range(8)), [0, 1, 2, 3]), (1, 3, [3], [0, 1]), (1, 2, list(range(8)), list(range(len(PREAMBLES))))]
     for level, L, cfgs, pres in exh:
         nA = len(alphabet(level))
-        ctx.coverage.setdefault("exhaustive", []).append({"alphabet": nA, "length": L, "cfgs": cfgs, "preambles": pres, "histories": nA ** L * len(cfgs) * len(pres)})
+        ctx.coverage.setdefault("exhaustive_blocks", []).append({"alphabet": nA, "length": L, "cfgs": cfgs, "preambles": pres, "histories": nA ** L * len(cfgs) * len(pres)})
         for cfg in cfgs:
             for pi in pres:
                 for first in range(nA):
